@@ -439,6 +439,31 @@ def uri_part(out, b32vals):
     return pins, code_pins
 
 
+def typed_entry_points():
+    """from_string_dirnode & co.: each must be `u = from_string(s, **kwargs); _assert(I.providedBy(u)); return u`."""
+    text, tree = read_source(URI_SRC)
+    funcs = {n.name: n for n in tree.body if isinstance(n, ast.FunctionDef)}
+    rows = []
+    for name in ("from_string_dirnode", "from_string_filenode", "from_string_mutable_filenode", "from_string_verifier"):
+        fn = funcs.get(name)
+        if fn is None:
+            raise TranslatorAbort("uri.%s is not a plain function definition" % name)
+        body = strip_docstrings(fn).body
+        ok = (len(body) == 3 and fn.args.kwarg is not None and [a.arg for a in fn.args.args] == ["s"]
+              and isinstance(body[0], ast.Assign) and isinstance(body[0].value, ast.Call)
+              and isinstance(body[1], ast.Expr) and isinstance(body[1].value, ast.Call)
+              and isinstance(body[1].value.func, ast.Name) and body[1].value.func.id == "_assert"
+              and isinstance(body[2], ast.Return) and isinstance(body[2].value, ast.Name) and body[2].value.id == "u")
+        if not ok:
+            raise TranslatorAbort("uri.%s has an unexpected shape" % name)
+        test = body[1].value.args[0]
+        if not (isinstance(test, ast.Call) and isinstance(test.func, ast.Attribute) and test.func.attr == "providedBy"
+                and isinstance(test.func.value, ast.Name)):
+            raise TranslatorAbort("uri.%s: unexpected assertion" % name)
+        rows.append("(%s, %s, %s)" % (s(name), s(test.func.value.id), s(ast.unparse(body[0].value))))
+    return rows
+
+
 def simple_pins(rel, names):
     text, tree = read_source(rel)
     funcs = {n.name: n for n in tree.body if isinstance(n, (ast.FunctionDef, ast.ClassDef))}
@@ -528,6 +553,7 @@ def generate():
     b32vals, b32_pins = base32_part(out)
     id_pins, code_pins = uri_part(out, b32vals)
     code_pins += simple_pins(COMMON_SRC, ["si_b2a", "si_a2b"])
+    typed_pins = typed_entry_points()
     unknown_pins = simple_pins(UNKNOWN_SRC, ["strip_prefix_for_ro", "UnknownNode.__init__", "UnknownNode.get_cap",
                                              "UnknownNode.get_readcap", "UnknownNode.get_uri", "UnknownNode.get_write_uri",
                                              "UnknownNode.get_readonly_uri"])
@@ -546,6 +572,8 @@ def generate():
     out.append("Definition base32_code_pins : list (string * string) := %s." % coq_list(b32_pins, per_line=True))
     out.append("Definition uri_code_pins : list (string * string) := %s." % coq_list(code_pins, per_line=True))
     out.append("Definition unknown_code_pins : list (string * string) := %s." % coq_list(unknown_pins, per_line=True))
+    out.append("(* uri.py: the typed entry points: (function, interface asserted, the call it makes) *)")
+    out.append("Definition typed_entry_table : list (string * string * string) := %s." % coq_list(typed_pins, per_line=True))
     out.append("Definition cap_identity_pins : list (string * string) := %s." % coq_list(id_pins, per_line=True))
     out.append("Definition node_identity_pins : list (string * string) := %s." % coq_list(node_pins, per_line=True))
     body = (HEADER % ("uri.py", URI_SRC + ", " + B32_SRC + ", " + UNKNOWN_SRC + " and the node classes")
